@@ -332,7 +332,9 @@ def _run(info, out, R):
     if info["tier"] == "thorough":
         # the convolutions gen_convs avoids for time (factorial(0) loops 2^32 times, D4): one of each kind on the real code
         cases.append({"gen": {"periods": 0, "orders": [0, 2], "nknots": [4, 7], "aux": [["SLOW1", "order-0 dimension convolved"]]}, "path": None, "convs": [[3, 0]]})
-        cases.append({"gen": {"periods": 1, "orders": [2, 1], "nknots": [6, 5], "aux": []}, "path": None, "convs": [[1, 1]]})
+        # (a one-knot kernel is refused by convolve since the fix "convolve validates its arguments" (6842ad8); the model's
+        #  valid_conv still allows n = 1, which only makes C19_bound more general; it is no longer run on the real code)
+        cases.append({"gen": {"periods": 1, "orders": [2, 1], "nknots": [6, 5], "aux": []}, "path": None, "convs": [[2, 1]]})
     results = R.run_cases(cases)
 
     stats = {"corr_fail": 0, "oracle_fail": 0}
